@@ -37,10 +37,12 @@ def run(chk):
     sc = cl.gen_scenarios(chk, "C08", thorough)
     walks = cl.random_walks(chk.seed + 8, 3000 if thorough else 300, 6)
     again = refused_then_again()
-    out = cl.run_scenarios(binary, sc + again + walks, wd, "c08")
+    scripts = cl.script_walks(chk, binary, wd, chk.seed + 8, 2000 if thorough else 150)
+    out = cl.run_scenarios(binary, sc + again + walks + scripts, wd, "c08")
     outs, ifl, pfl = cl.validate(chk, out, wd, "c08", shard=600)
     cl.report(chk, outs, ifl, pfl, {"P08", "abnormal"}, WHAT)
     chk.cov["traces_validated_against_impl"] = len(outs)
+    chk.cov["reply_script_walks"] = len(scripts)
     chk.cov["evaluations"] = len(outs)
     chk.cov["distinct_nontrivial"] = len(sc)
     chk.cov["refused_release_histories"] = len(again)
